@@ -6,6 +6,7 @@
 //
 // The class below is named tetrisched::GurobiSolver on purpose: the model classes declare it as a friend,
 // and the real GurobiSolver.cpp (which needs Gurobi's C++ headers) is not part of this build.
+#include <algorithm>
 #include <cmath>
 #include <iomanip>
 #include <iostream>
@@ -28,6 +29,7 @@ class GurobiSolver {
   static std::string esc(const std::string& s) {
     std::string o;
     for (char c : s) {
+      if (c == '\n' || c == '\r' || c == '\t') { o.push_back(' '); continue; }
       if (c == '"' || c == '\\') o.push_back('\\');
       o.push_back(c);
     }
@@ -82,13 +84,17 @@ class GurobiSolver {
   }
 
   static bool setValues(SolverModelPtr m, const std::map<uint32_t, double>& values, std::string& err) {
-    for (auto& [id, v] : m->modelVariables) {
-      auto it = values.find(id);
+    // values are keyed by the rank of the variable id (ids keep growing while the process serves further cases)
+    std::vector<std::pair<uint32_t, VariablePtr>> vars;
+    for (auto& [id, v] : m->modelVariables) vars.push_back({id, v});
+    std::sort(vars.begin(), vars.end(), [](const auto& a, const auto& b) { return a.first < b.first; });
+    for (size_t rank = 0; rank < vars.size(); rank++) {
+      auto it = values.find(static_cast<uint32_t>(rank));
       if (it == values.end()) {
-        err = "no value for variable " + v->variableName;
+        err = "no value for variable " + vars[rank].second->variableName;
         return false;
       }
-      v->solutionValue = it->second;
+      vars[rank].second->solutionValue = it->second;
     }
     return true;
   }
@@ -103,8 +109,17 @@ struct NodeSpec {
   std::vector<std::string> args;
 };
 
+static bool runOneCase();
+
 int main() {
   std::ios::sync_with_stdio(false);
+  // one case per END-terminated block; the process serves cases until stdin closes
+  while (runOneCase()) {
+  }
+  return 0;
+}
+
+static bool runOneCase() {
   Time now = 0, gran = 1;
   std::vector<std::string> passes;
   std::map<uint32_t, PartitionPtr> partitions;
@@ -115,8 +130,11 @@ int main() {
   bool haveValues = false;
   std::map<uint32_t, double> values;
   std::string line;
+  bool sawInput = false, sawEnd = false;
   try {
     while (std::getline(std::cin, line)) {
+      if (line.empty()) continue;
+      sawInput = true;
       std::istringstream ss(line);
       std::string cmd;
       ss >> cmd;
@@ -146,8 +164,9 @@ int main() {
           vs >> id >> v;
           values[id] = v;
         }
-      } else if (cmd == "END") break;
+      } else if (cmd == "END") { sawEnd = true; break; }
     }
+    if (!sawInput || !sawEnd) return false;
 
     auto partsOf = [&](const std::vector<std::string>& a, size_t& pos) {
       Partitions ps;
@@ -225,6 +244,17 @@ int main() {
     }
     auto rootExpr = exprs.at(root);
     runner.runPreTranslationPasses(now, rootExpr, capacityMap);
+    // Time is unsigned: a pass that subtracts a duration from a smaller bound wraps around.  A WindowedChoose would
+    // then enumerate start slots up to ~2^32 (minutes of lowering, or slots at "negative" times): report it instead.
+    for (auto& [idx, n] : nodes) {
+      if (n.kind != "WINDOWED") continue;
+      auto b = exprs.at(idx)->getTimeBounds();
+      const Time lim = 0x7fffffffu;
+      if (b.startTimeRange.first > lim || b.startTimeRange.second > lim || b.endTimeRange.first > lim || b.endTimeRange.second > lim) {
+        std::cout << "{\"error\":\"time bounds wrapped below zero after the passes: node " << idx << " " << GurobiSolver::esc(b.toString()) << "\"}" << std::endl;
+        return true;
+      }
+    }
     rootExpr->parse(model, available, capacityMap, now);
     runner.runPostTranslationPasses(now, rootExpr, capacityMap);
 
@@ -295,5 +325,5 @@ int main() {
   } catch (const std::exception& e) {
     std::cout << "{\"error\":\"" << tetrisched::GurobiSolver::esc(e.what()) << "\"}" << std::endl;
   }
-  return 0;
+  return true;
 }
